@@ -110,3 +110,25 @@ pub fn bit_unpack(v: &[u8], a: i32, b: i32) -> Result<[i32; 256], &'static str> 
 pub fn expand_mask<const L: usize>(gamma1: i32, rho: &[u8; 64], mu: u16) -> [[i32; 256]; L] {
     from_r(&crate::hashing::expand_mask::<L>(gamma1, rho, mu))
 }
+
+/// `encodings::sig_decode`; returns `(c_tilde, z, h)` on plain arrays.
+///
+/// # Errors
+/// Propagates the decoding error of the wrapped function (malformed hint section).
+#[allow(clippy::type_complexity)]
+pub fn sig_decode<const K: usize, const L: usize, const LAMBDA_DIV4: usize, const SIG_LEN: usize>(
+    gamma1: i32, omega: i32, sigma: &[u8; SIG_LEN],
+) -> Result<([u8; LAMBDA_DIV4], [[i32; 256]; L], [[i32; 256]; K]), &'static str> {
+    let (c_tilde, z, h): ([u8; LAMBDA_DIV4], [R; L], Option<[R; K]>) =
+        crate::encodings::sig_decode::<K, L, LAMBDA_DIV4, SIG_LEN>(gamma1, omega, sigma)?;
+    let h = h.ok_or("hint is None")?;
+    Ok((c_tilde, from_r(&z), from_r(&h)))
+}
+
+/// `encodings::sig_encode` (normal mode, `CTEST = false`).
+#[must_use]
+pub fn sig_encode<const K: usize, const L: usize, const LAMBDA_DIV4: usize, const SIG_LEN: usize>(
+    gamma1: i32, omega: i32, c_tilde: &[u8; LAMBDA_DIV4], z: &[[i32; 256]; L], h: &[[i32; 256]; K],
+) -> [u8; SIG_LEN] {
+    crate::encodings::sig_encode::<false, K, L, LAMBDA_DIV4, SIG_LEN>(gamma1, omega, c_tilde, &to_r(z), &to_r(h))
+}
